@@ -59,21 +59,21 @@ CHECKS = {
    text="GroupObs.tla states the promise (GroupsIdentical: equal class of (length, bytes) - of the transform output with --transform - and printed length) and TLC evaluates it on the parsed report "
         "of real `group` runs over seeded trees whose content classes are a base and single-byte flips at the stage boundaries (4 KiB, 16 KiB, 64 KiB buffer / suffix threshold, >128 KiB), with copies, "
         "hard links, symlinks, and random configurations (7 hash functions, cache, pinned device kind, prefix/suffix sizes, thread pools, keep/shrink/expand/drop-head transforms). "
-        "The oracle compares bytes directly.",
+        "The oracle compares bytes directly. Grouping.tla specifies the staged pipeline itself (size / prefix / suffix / contents stages of `rehash`: pre-filter, runs of same-identity paths, one task per run in any order, regrouping by (length, hash) with hash values as XOR-able sets of window atoms, pass-through groups, permissive vs strict filter, --skip-content-hash final filter, unreadable identities); MC_Grouping model-checks Sound / Complete / NeverSplit / BadAlone / OthersUnaffected / FilterHonoured for every input of a small byte-level universe and every task order, and Trace_Grouping validates the StageDone hook events of the same real runs stage by stage (candidate sets after every stage must equal the specification's).",
    note="content classes by direct comparison of the bytes; 128-bit hash collisions outside the property; seeded random trees around the stage thresholds (not exhaustive over sizes)",
-   tech="TLC-evaluated declarative spec (GroupObs.tla) as oracle for randomized real runs; byte-compare oracle"),
+   tech="TLC model checking of the staged pipeline (Grouping.tla) + stage-by-stage trace validation of real runs + TLC-evaluated declarative spec (GroupObs.tla) as oracle; byte-compare oracle"),
  "C03": dict(cat="model_checking", sec="5 C03",
    text="ExactPartition / NoPathTwice / OnlyScanned of GroupObs.tla (expected groups = content classes of the scanned files that satisfy the replication filter, replicas counted with "
         "Partition.tla's sub-groups) evaluated by TLC on real reports: rf-over 0..3, rf-under 1..3, unique, isolate, hard links, repeated / nested / reordered roots, two tmpfs mounts with "
-        "coinciding inode numbers, transforms, cache.",
+        "coinciding inode numbers, transforms, cache. Grouping.tla specifies the staged pipeline itself (size / prefix / suffix / contents stages of `rehash`: pre-filter, runs of same-identity paths, one task per run in any order, regrouping by (length, hash) with hash values as XOR-able sets of window atoms, pass-through groups, permissive vs strict filter, --skip-content-hash final filter, unreadable identities); MC_Grouping model-checks Sound / Complete / NeverSplit / BadAlone / OthersUnaffected / FilterHonoured for every input of a small byte-level universe and every task order, and Trace_Grouping validates the StageDone hook events of the same real runs stage by stage (candidate sets after every stage must equal the specification's).",
    note="content classes by direct comparison of the bytes; 128-bit hash collisions outside the property; seeded random trees around the stage thresholds (not exhaustive over sizes)",
-   tech="TLC-evaluated declarative spec as oracle for randomized real runs"),
+   tech="TLC model checking of the staged pipeline (Grouping.tla) + stage-by-stage trace validation of real runs + TLC-evaluated declarative spec as oracle"),
  "C06": dict(cat="model_checking", sec="5 C06",
    text="Replica counting (sub-groups by isolate root, else by file identity unless --match-links) is Partition.tla/GroupObs.tla; TLC evaluates ExactPartition on real reports of trees rich in hard links "
         "and symlinks with -S/-H/-I and rf variations, and the reported sets must be identical when the same roots are spelled ./r, r/, x/../r, through a symlink, absolute, or relative to a "
-        "non-canonical --base-dir.",
+        "non-canonical --base-dir. Grouping.tla specifies the staged pipeline itself (size / prefix / suffix / contents stages of `rehash`: pre-filter, runs of same-identity paths, one task per run in any order, regrouping by (length, hash) with hash values as XOR-able sets of window atoms, pass-through groups, permissive vs strict filter, --skip-content-hash final filter, unreadable identities); MC_Grouping model-checks Sound / Complete / NeverSplit / BadAlone / OthersUnaffected / FilterHonoured for every input of a small byte-level universe and every task order, and Trace_Grouping validates the StageDone hook events of the same real runs stage by stage (candidate sets after every stage must equal the specification's).",
    note="content classes by direct comparison of the bytes; 128-bit hash collisions outside the property; seeded random trees around the stage thresholds (not exhaustive over sizes)",
-   tech="TLC-evaluated declarative spec as oracle + metamorphic root-spelling replay"),
+   tech="TLC model checking of the staged pipeline (Grouping.tla) + stage-by-stage trace validation + TLC-evaluated declarative spec as oracle + metamorphic root-spelling replay"),
  "C14": dict(cat="model_checking", sec="5 C14",
    text="StatsMatch (header = body, redundant/missing as defined through the sub-groups), SortedBySize, RootsTogether of GroupObs.tla evaluated by TLC on real reports; the text, JSON, CSV and fdupes "
         "outputs of the same run are parsed by independent parsers and must describe the same groups with matching counts; -o FILE (pre-existing, longer file) must equal stdout; paths absolute.",
